@@ -4,6 +4,7 @@ package main
 
 import (
 	"crypto/hmac"
+	"encoding/pem"
 	"crypto/sha256"
 	"fmt"
 	"io"
@@ -18,8 +19,10 @@ import (
 	"time"
 
 	"github.com/alicebob/miniredis/v2"
+	"github.com/alicebob/miniredis/v2/server"
 	"github.com/oauth2-proxy/oauth2-proxy/v7/pkg/apis/options"
 	"github.com/oauth2-proxy/oauth2-proxy/v7/pkg/logger"
+	"github.com/oauth2-proxy/oauth2-proxy/v7/pkg/util"
 	"github.com/oauth2-proxy/oauth2-proxy/v7/pkg/validation"
 )
 
@@ -99,6 +102,7 @@ type testEnv struct {
 	panics   int
 	lastPanic string
 	rec      *recorder
+	redisFault map[string]string // upper-case command → "before" | "after" (one shot)
 }
 
 func (e *testEnv) close() {
@@ -184,6 +188,14 @@ func newEnv(c *suiteCtx, cfg proxyCfg) (*testEnv, error) {
 	o.ForceHTTPS = cfg.ForceHTTPS
 	if cfg.ForceHTTPS {
 		o.Server.SecureBindAddress = "127.0.0.1:8443"
+		certDER, keyDER, err := util.GenerateCert("127.0.0.1")
+		if err != nil {
+			return nil, err
+		}
+		o.Server.TLS = &options.TLS{
+			Cert: &options.SecretSource{Value: pem.EncodeToMemory(&pem.Block{Type: "CERTIFICATE", Bytes: certDER})},
+			Key:  &options.SecretSource{Value: pem.EncodeToMemory(&pem.Block{Type: "PRIVATE KEY", Bytes: keyDER})},
+		}
 	}
 	o.RawRedirectURL = cfg.RedirectURL
 	if len(cfg.Htpasswd) > 0 {
@@ -258,6 +270,20 @@ func newEnv(c *suiteCtx, cfg proxyCfg) (*testEnv, error) {
 			return nil, err
 		}
 		e.mr = mr
+		mr.Server().SetPreHook(func(p *server.Peer, cmd string, args ...string) bool {
+			kind, ok := e.redisFault[strings.ToUpper(cmd)]
+			if !ok {
+				return false
+			}
+			delete(e.redisFault, strings.ToUpper(cmd))
+			if kind == "after" && strings.ToUpper(cmd) == "DEL" {
+				for _, k := range args {
+					mr.Del(k)
+				}
+			}
+			p.WriteError("ERR verif: injected redis fault")
+			return true
+		})
 		o.Session.Type = options.RedisSessionStoreType
 		o.Session.Redis.ConnectionURL = "redis://" + mr.Addr() + "?max_retries=-1"
 	}
@@ -371,6 +397,9 @@ func (e *testEnv) buildRequest(rs reqSpec) (*http.Request, error) {
 	req, err := http.NewRequest(method, "http://"+host+rs.Target, body)
 	if err != nil {
 		return nil, err
+	}
+	if body == nil && (method == "POST" || method == "PUT" || method == "PATCH") {
+		req.Body = http.NoBody // a server request never has a nil body
 	}
 	// what net/http's server would deliver
 	req.RequestURI = rs.Target
